@@ -263,6 +263,8 @@ func c14Templates() map[string][]byte {
 		"ms3of3":       cat([]byte{0x53}, push(k33), push(k33b), push(k65), []byte{0x53, 0xae}),
 		"opreturn":     cat([]byte{0x6a}, push([]byte("data"))),
 		"falsereturn":  cat([]byte{0x00, 0x6a}, push([]byte("data")), push([]byte{1, 2})),
+		"data3":        cat([]byte{0x00, 0x6a}, push([]byte("abc")), push([]byte("hello world"))),
+		"data2":        cat([]byte{0x6a}, push([]byte("ab")), push([]byte("xyz")), []byte{0x51}),
 		"inscription":  insc,
 		"inscription+": cat(insc, []byte{0x6a}, push([]byte("extra"))),
 	}
